@@ -19,22 +19,58 @@ import (
 // about rollback, C05 about who may sign.
 
 //zz:stub (*github.com/canopy-network/canopy/lib/crypto.BatchVerifier).Add harness zzBatchAdd
-//zz:stub (*github.com/canopy-network/canopy/lib/crypto.BatchVerifier).Verify noop
+//zz:stub (*github.com/canopy-network/canopy/lib/crypto.BatchVerifier).Verify harness zzBatchVerify
+//zz:stub (*github.com/canopy-network/canopy/lib/crypto.BatchVerifier).Count harness zzBatchCount
+//zz:stub github.com/canopy-network/canopy/lib/crypto.NewBatchVerifier harness zzNewBatch
 
 type zzWorldVals struct {
 	bal  [3]uint64
 	pool [2]uint64
 }
 
-// zzBatchAdd: the batch verifier only records what it is asked to verify (ideal signatures: the
-// batch succeeds); C05 A1 checks that exactly (key, sign bytes, signature) of the transaction is queued.
+// The batch signature verifier under ideal signatures: Add queues (key, message, signature) on the
+// verifier it is called on (a no-op verifier queues nothing), Count is the queue length and Verify
+// reports the queue positions whose signature was not genuinely produced by the key's owner over
+// exactly that message. Convention of the fsm harnesses: such a genuine signature is the byte 0x01.
 type zzBatchItem struct{ pk, msg, sig []byte }
+type zzBatchState struct {
+	noOp  bool
+	items []zzBatchItem
+}
 
-var zzBatchQueue []zzBatchItem
+var zzBatches = map[*crypto.BatchVerifier]*zzBatchState{}
+var zzBatchQueue []zzBatchItem // everything queued on any verifier, in order (C05 A1)
 
+func zzBatchOf(b *crypto.BatchVerifier) *zzBatchState {
+	st := zzBatches[b]
+	if st == nil {
+		st = &zzBatchState{}
+		zzBatches[b] = st
+	}
+	return st
+}
+func zzNewBatch(noOp ...bool) *crypto.BatchVerifier {
+	b := &crypto.BatchVerifier{}
+	zzBatchOf(b).noOp = noOp != nil
+	return b
+}
 func zzBatchAdd(b *crypto.BatchVerifier, pk crypto.PublicKeyI, pkBytes, msg, sig []byte) error {
+	st := zzBatchOf(b)
+	if st.noOp {
+		return nil
+	}
+	st.items = append(st.items, zzBatchItem{pkBytes, msg, sig})
 	zzBatchQueue = append(zzBatchQueue, zzBatchItem{pkBytes, msg, sig})
 	return nil
+}
+func zzBatchCount(b *crypto.BatchVerifier) int { return len(zzBatchOf(b).items) }
+func zzBatchVerify(b *crypto.BatchVerifier) (bad []int) {
+	for j, it := range zzBatchOf(b).items {
+		if !(len(it.sig) == 1 && it.sig[0] == 1) {
+			bad = append(bad, j)
+		}
+	}
+	return
 }
 
 func zzWorldValues() (w zzWorldVals) {
@@ -75,6 +111,7 @@ func zzBuildWorld(w zzWorldVals) (*StateMachine, *zzStore) {
 }
 
 type zzTxSpec struct {
+	badSig                    bool // the signature was NOT produced by the signer's key over this content
 	from, to, signer          int
 	amount, fee               uint64
 	created, time, net, chain uint64
@@ -105,13 +142,20 @@ func zzSendTxBytes(s zzTxSpec) []byte {
 	if err != nil {
 		panic("NewAny")
 	}
-	tx := &lib.Transaction{MessageType: MessageSendName, Msg: any, Signature: &lib.Signature{PublicKey: zzAddr(s.signer), Signature: []byte{1}},
+	tx := &lib.Transaction{MessageType: MessageSendName, Msg: any, Signature: &lib.Signature{PublicKey: zzAddr(s.signer), Signature: []byte{zzSigByte(s.badSig)}},
 		CreatedHeight: s.created, Time: s.time, Fee: s.fee, NetworkId: s.net, ChainId: s.chain}
 	bz, e := lib.Marshal(tx)
 	if e != nil {
 		panic("Marshal")
 	}
 	return bz
+}
+
+func zzSigByte(bad bool) byte {
+	if bad {
+		return 2
+	}
+	return 1
 }
 
 func zzBalances(sm *StateMachine) (out [5]uint64) {
